@@ -7,7 +7,7 @@ VERIF = os.path.dirname(os.path.dirname(os.path.abspath(__file__)))
 SEEDED = os.path.join(VERIF, "seeded")
 EXTRA = {"C16-m8": ["C14"], "C05-m7": ["C06"], "C05-m8": ["C06"], "C04-m8": ["C07"], "C06-m4": ["C07"], "C01-m4": ["C12"], "C14-m7": ["C13"], "C03-m6": ["C18"], "C15-m6": ["C18"], "C11-m2": ["C02"], "C10-m1": ["C02"], "C14-m2": ["C13"], "C18-m2": ["C04"], "C04-m1": ["C18"],
          "C06-m1": ["C05"], "C14-m1": ["C12"], "C15-m2": ["C12"], "C04-m12": ["C14"], "C05-m12": ["C18", "C04"], "C02-m11": ["C10"], "C02-m12": ["C08"],
-         "C18-m11": ["C02"], "C19-m11": ["C08"]}
+         "C18-m11": ["C02"], "C19-m11": ["C08"], "C06-m14": ["C03"], "C07-m13": ["C03"], "C13-m14": ["C15"], "C01-m14": ["C12"]}
 only = sys.argv[1:]
 rows = []
 for d in sorted(os.listdir(SEEDED)):
